@@ -1,4 +1,4 @@
-# C03 job table (see DESIGN.md section 3): List / Array / PoolList hold exactly the reference sequence; List::sort
+# C03 job table (see DESIGN.md section 3): List / Array / PoolList hold exactly the reference sequence; List::sort; large containers (mode big)
 from .jobs import job, Q, T
 
 SPEC = dict(
@@ -17,7 +17,14 @@ SPEC = dict(
          '(links, free list acyclic and disjoint from the live items, every live and free item inside a block of the list and not overlapping another one, live + free == slots of '
          'the blocks with the slot count of each block derived from its allocation size under ASan - no slot count is assumed; Array begin/end/capacity coherent). When the private '
          'members the walker reads cannot be compiled against (renamed), the harness is built with -DVERIF_NO_PRIVATE: all public-API oracles stay, the walker is absent (evidence '
-         'field degraded_no_private_access). sort oracle: ascending and multiset-equal on (key, id) to the list before.',
+         'field degraded_no_private_access). sort oracle: ascending and multiset-equal on (key, id) to the list before. '
+         '"big" = few long cases per process for size-dependent behaviour (case index mod 3 selects List / Array / PoolList): the container is grown (appends only, runs of append / prepend / '
+         'insert before a position, overshoot + removal of the surplus, grow-and-thin-out, copy or assignment of a temporary; Array also Array(n), reserve + one block, resize, several blocks, '
+         'single appends across the capacity) to a size in 1k..scale picked around powers of two (-3..+7) and round decimal numbers (-1..+3) or log-uniformly, then 5..9 phases of clear + refill, '
+         'assignment onto / from it (second container as it is / fresh / small / large), copy construction + mutation of the copy, swap + mutation of both, bulk removal (every k-th element through '
+         'one iterator walk with the returned successor checked, many from an end, by value / index / element reference), re-insertion of 1..9 / a fraction / all / all+1 elements, insertion of a '
+         'whole list, Array resize / reserve / append(Array), one sort; bulk operations write one history line and each phase ends with the full comparison of both containers (contents both '
+         'directions, structural walk, find for first / middle / last / absent key, List equality), no library threshold is known to the generator.',
     assumptions=['ASan/UBSan red zones; library ASSERTs enabled (-DDEBUG)',
                  'self-assignment / self-argument operations and element arguments aliasing the container are not generated here (property C04)',
                  'PoolList::front()/back() cannot be instantiated and are not called; first/last are observed through begin() and --end()',
@@ -30,20 +37,29 @@ SPEC = dict(
         job('array-grow', 'h_seq', 'array-grow', cases=-1, procs=16),
         job('sort-exh', 'h_seq', 'sort-exh', cases=-1, scale={Q: 7, T: 8}, procs=16),
         job('sort-rand', 'h_seq', 'sort-rand', cases={Q: 2000, T: 8000}, scale=2000, procs=16),
+        # few long cases: containers of 1k..scale elements (sizes around powers of two / round numbers), then clear / assignment / copy / swap / bulk removal / re-insertion
+        job('big', 'h_seq', 'big', cases={Q: 192, T: 1920}, scale={Q: 20000, T: 50000}, procs=16),
         # the same generators against the -O2 build without sanitizers (the configuration the library ships in): model + structural walker only
         job('list-O2', 'h_seq', 'list', variant='plain', cases={Q: 2000, T: 15000}, procs=8, args=['--start', '500000']),
         job('array-O2', 'h_seq', 'array', variant='plain', cases={Q: 2000, T: 15000}, procs=8, args=['--start', '500000']),
         job('plist-O2', 'h_seq', 'plist', variant='plain', cases={Q: 2000, T: 15000}, procs=8, args=['--start', '500000']),
         job('sort-exh-O2', 'h_seq', 'sort-exh', variant='plain', cases=-1, scale={Q: 6, T: 8}, procs=8),
+        job('big-O2', 'h_seq', 'big', variant='plain', cases={Q: 48, T: 480}, scale={Q: 20000, T: 50000}, procs=8, args=['--start', '500000']),
     ],
     floors={Q: dict(ops=1500000, finds=20000000, structure_walks=1700000, walks_with_block_sizes=1000000, op_sort=35000, sort_permutations=6788, sort_duplicate_sequences=19682, growths=70000, sweep_configurations=52236,
                     op_insert_list=18000, op_append_block=38000, op_append_array=33000, op_resize=40000, op_reserve=47000, op_remove_index=39000, op_remove_ref=15000, op_remove_value=40000,
-                    op_copy_construct=30000, op_assign=30000, op_swap=60000, eq_true_nonempty=50000, eq_false_same_size=39000, max_size=1500,
-                    **{'set:append_arities': 8, 'set:remove_index_classes': 4, 'set:resize_classes': 4, 'set:reserve_classes': 6, 'set:copy_classes': 4, 'set:swap_classes': 9,
+                    op_copy_construct=30000, op_assign=30000, op_swap=60000, eq_true_nonempty=50000, eq_false_same_size=39000, max_size=16000,
+                    big_phases=1000, big_checks_large=2400, big_elements_checked=12000000, big_inserted_large=2200000, big_removed=600000, big_clear_large=170, big_clear_large_with_free_items=80,
+                    big_refill_after_clear=130, big_assign_onto_large=65, big_assign_from_large=80, big_copy_large=60, big_swap_large=100, big_bulk_removals_large=400,
+                    **{'set:big_size_classes': 3, 'set:big_phase_kinds_list': 11, 'set:big_phase_kinds_array': 11, 'set:big_phase_kinds_plist': 5, 'set:big_swap_classes': 4, 'set:big_assign_classes': 6,
+                       'set:append_arities': 8, 'set:remove_index_classes': 4, 'set:resize_classes': 4, 'set:reserve_classes': 6, 'set:copy_classes': 4, 'set:swap_classes': 9,
                        'set:sort_patterns': 7, 'set:insert_positions': 5, 'set:equality_relations': 4, 'set:slots_per_block': 1}),
             T: dict(ops=12000000, finds=180000000, structure_walks=14000000, walks_with_block_sizes=4000000, op_sort=280000, sort_permutations=92468, sort_duplicate_sequences=19682, growths=350000, sweep_configurations=52236,
                     op_insert_list=160000, op_append_block=310000, op_append_array=270000, op_resize=320000, op_reserve=320000, op_remove_index=320000, op_remove_ref=150000, op_remove_value=420000,
-                    op_copy_construct=300000, op_assign=300000, op_swap=640000, eq_true_nonempty=460000, eq_false_same_size=340000, max_size=1900,
-                    **{'set:append_arities': 8, 'set:remove_index_classes': 4, 'set:resize_classes': 4, 'set:reserve_classes': 6, 'set:copy_classes': 4, 'set:swap_classes': 9,
+                    op_copy_construct=300000, op_assign=300000, op_swap=640000, eq_true_nonempty=460000, eq_false_same_size=340000, max_size=32000,
+                    big_phases=8000, big_checks_large=19000, big_elements_checked=96000000, big_inserted_large=17000000, big_removed=4800000, big_clear_large=1300, big_clear_large_with_free_items=640,
+                    big_refill_after_clear=1000, big_assign_onto_large=520, big_assign_from_large=640, big_copy_large=480, big_swap_large=800, big_bulk_removals_large=3200,
+                    **{'set:big_size_classes': 3, 'set:big_phase_kinds_list': 11, 'set:big_phase_kinds_array': 11, 'set:big_phase_kinds_plist': 5, 'set:big_swap_classes': 4, 'set:big_assign_classes': 6,
+                       'set:append_arities': 8, 'set:remove_index_classes': 4, 'set:resize_classes': 4, 'set:reserve_classes': 6, 'set:copy_classes': 4, 'set:swap_classes': 9,
                        'set:sort_patterns': 7, 'set:insert_positions': 5, 'set:equality_relations': 4, 'set:slots_per_block': 1})},
 )
